@@ -390,6 +390,11 @@ func (e *Env) evalBinary(x EBinary) TV {
 			vc := e.vc
 			vc.declareOnce("strcat", "(declare-fun strcat (Int Int) Int)\n(assert (forall ((a! Int) (b! Int)) (! (= (strlen (strcat a! b!)) (+ (strlen a!) (strlen b!))) :pattern ((strcat a! b!)))))")
 			vc.strLen(Zero)
+			if la, oka := vc.litOf(ta); oka {
+				if lb, okb := vc.litOf(tb); okb {
+					return TV{vc.strLit(la + lb), SType{K: KStr, Go: types.Typ[types.String]}} // constant folding, as the compiler does
+				}
+			}
 			return TV{app(SInt, "strcat", ta, tb), SType{K: KStr, Go: types.Typ[types.String]}}
 		}
 		return TV{Add(ta, tb), rt}
@@ -964,6 +969,19 @@ func (vc *VC) strLen(s Term) Term {
 func (vc *VC) strAt(s, i Term) Term {
 	vc.declareOnce("strat", "(declare-fun strat (Int Int) Int)\n(assert (forall ((s! Int) (i! Int)) (! (and (>= (strat s! i!) 0) (< (strat s! i!) 256)) :pattern ((strat s! i!)))))")
 	return app(SInt, "strat", s, i)
+}
+
+// litOf gives the content of a term that is a string literal.
+func (vc *VC) litOf(t Term) (string, bool) {
+	if t.S == "0" {
+		return "", true
+	}
+	for content, lt := range vc.strLits {
+		if lt.S == t.S {
+			return content, true
+		}
+	}
+	return "", false
 }
 
 func (vc *VC) strLit(s string) Term {
